@@ -41,6 +41,8 @@ func (a *A) C02() {
 	// survives the end-of-stream drain that removed it from the map)
 	a.filtersFirst()
 	a.keyedByPID()
+	// a unit that decodes is delivered whatever it contains (D1)
+	a.NoContentFilter()
 }
 
 // AssembledPayload runs R8 alone (every payload of the group is copied into the pooled buffer, in order, completely).
